@@ -53,6 +53,13 @@ SEEKOP (op_seek_wmode, 0, SEEK_SET | SFM_WRITE)
 static int k_seek_wmode (void) { return MODE == SFM_READ ? V_INVALID : V_NA ; }
 SEEKOP (op_seek_rmode, 0, SEEK_SET | SFM_READ)
 static int k_seek_rmode (void) { return MODE == SFM_WRITE ? V_INVALID : V_NA ; }
+/* the wrong-mode bit with the other whence values, including the zero-offset "tell" idiom */
+SEEKOP (op_seek_wmode_cur0, 0, SEEK_CUR | SFM_WRITE)
+SEEKOP (op_seek_wmode_cur1, 1, SEEK_CUR | SFM_WRITE)
+SEEKOP (op_seek_wmode_end, 0, SEEK_END | SFM_WRITE)
+SEEKOP (op_seek_rmode_cur0, 0, SEEK_CUR | SFM_READ)
+SEEKOP (op_seek_rmode_cur1, 1, SEEK_CUR | SFM_READ)
+SEEKOP (op_seek_rmode_end, 0, SEEK_END | SFM_READ)
 static long op_cmd_getclip (SNDFILE *sf) { int r ; INLIB (r = sf_command (sf, SFC_GET_CLIPPING, NULL, 0)) ; return r ; }
 static int  k_valid (void) { return V_VALID ; }
 static long op_cmd_unknown (SNDFILE *sf) { int r ; INLIB (r = sf_command (sf, 0x4321, NULL, 0)) ; return r ; }
@@ -78,6 +85,8 @@ static const Op ops [] =
 	{ "seek-whence3", k_inv, op_seek_w3, RK_SEEK }, { "seek-whence77", k_inv, op_seek_w77, RK_SEEK }, { "seek-whence0x80", k_inv, op_seek_w80, RK_SEEK },
 	{ "seek-neg", k_inv, op_seek_neg, RK_SEEK }, { "seek-past", k_seek_past, op_seek_past, RK_SEEK },
 	{ "seek-wmode", k_seek_wmode, op_seek_wmode, RK_SEEK }, { "seek-rmode", k_seek_rmode, op_seek_rmode, RK_SEEK },
+	{ "seek-wmode-cur0", k_seek_wmode, op_seek_wmode_cur0, RK_SEEK }, { "seek-wmode-cur1", k_seek_wmode, op_seek_wmode_cur1, RK_SEEK }, { "seek-wmode-end", k_seek_wmode, op_seek_wmode_end, RK_SEEK },
+	{ "seek-rmode-cur0", k_seek_rmode, op_seek_rmode_cur0, RK_SEEK }, { "seek-rmode-cur1", k_seek_rmode, op_seek_rmode_cur1, RK_SEEK }, { "seek-rmode-end", k_seek_rmode, op_seek_rmode_end, RK_SEEK },
 	{ "cmd-unknown", k_inv, op_cmd_unknown, RK_CODE }, { "cmd-null", k_inv, op_cmd_null, RK_CODE },
 	{ "setstr-null", k_inv, op_setstr_null, RK_CODE }, { "setstr-type", k_inv, op_setstr_type, RK_CODE },
 	{ "setchunk-null", k_inv, op_setchunk_null, RK_CODE }, { "chunksize-null", k_inv, op_chunksize_null, RK_CODE },
